@@ -21,8 +21,10 @@ import (
 	"sync"
 
 	"github.com/pingcap/kvproto/pkg/metapb"
+	"github.com/tikv/pd/server/config"
 	"github.com/tikv/pd/server/core"
 	"github.com/tikv/pd/server/schedule/placement"
+	"github.com/tikv/pd/server/versioninfo"
 	"verif/harness/lib/ev"
 	"verif/harness/lib/sim"
 )
@@ -566,4 +568,231 @@ func (rn *runner) flipItem(cl *cluster, S int, it flipItem, dirs []bool) {
 		si, _ := storeInfo(storeDesc{ID: uint64(o), State: stUp})
 		cl.PutStore(si)
 	}
+}
+
+// ---- a cluster-wide setting changes at a chosen query INSIDE one NewBuilder/Build ---------------------------------
+//
+// Besides store records the builder asks the cluster for its feature level (IsFeatureSupported), its
+// options (GetOpts: enable-joint-consensus, enable-placement-rules, location labels, store filters) and
+// the placement fit. queryCluster counts EVERY such query of one build (NewBuilder included) and applies
+// one change just before answering the k-th: the joint-consensus feature becoming supported (the last
+// old store reports its new version) or unsupported, enable-joint-consensus switched, placement rules
+// switched (thorough: location labels switched). Complete grid: every origin x request (3 stores) x base
+// setting x kind of change x every k. A build may fail; an operator that is produced is judged as usual.
+
+type queryCluster struct {
+	*cluster
+	feature   bool // answer for versioninfo.JointConsensus
+	calls, at int
+	fire      func()
+}
+
+func (q *queryCluster) tick() {
+	q.calls++
+	if q.calls == q.at && q.fire != nil {
+		q.fire()
+	}
+}
+
+// IsFeatureSupported shadows the mock (which cannot re-enable a feature).
+func (q *queryCluster) IsFeatureSupported(f versioninfo.Feature) bool {
+	q.tick()
+	if f == versioninfo.JointConsensus {
+		return q.feature
+	}
+	return q.cluster.IsFeatureSupported(f)
+}
+
+// GetOpts shadows the mock: the caller reads the option right after this call.
+func (q *queryCluster) GetOpts() *config.PersistOptions {
+	q.tick()
+	return q.cluster.GetOpts()
+}
+
+// GetStore shadows cluster.GetStore.
+func (q *queryCluster) GetStore(id uint64) *core.StoreInfo {
+	q.tick()
+	return q.cluster.GetStore(id)
+}
+
+// FitRegion shadows the mock.
+func (q *queryCluster) FitRegion(region *core.RegionInfo) *placement.RegionFit {
+	q.tick()
+	return q.cluster.FitRegion(region)
+}
+
+// queryBase is the cluster-wide setting a build starts with.
+type queryBase struct {
+	Feature, JointCfg, Rules, LocLabels bool
+}
+
+func (b queryBase) mode() string {
+	switch {
+	case !b.Feature:
+		return modeLegacy
+	case b.JointCfg:
+		return modeJoint
+	}
+	return modeDemote
+}
+
+func (q *queryCluster) apply(b queryBase) {
+	q.feature = b.Feature
+	sc := q.cluster.GetScheduleConfig().Clone()
+	if sc.EnableJointConsensus != b.JointCfg {
+		sc.EnableJointConsensus = b.JointCfg
+		q.cluster.SetScheduleConfig(sc)
+	}
+	if q.cluster.GetOpts().IsPlacementRulesEnabled() != b.Rules {
+		q.cluster.SetEnablePlacementRules(b.Rules)
+	}
+	if (len(q.cluster.GetOpts().GetLocationLabels()) > 0) != b.LocLabels {
+		if b.LocLabels {
+			q.cluster.SetLocationLabels([]string{"zone", "host"})
+		} else {
+			q.cluster.SetLocationLabels(nil)
+		}
+	}
+}
+
+// flipped returns the base with one setting toggled.
+func (b queryBase) flipped(kind string) queryBase {
+	switch kind {
+	case "feature":
+		b.Feature = !b.Feature
+	case "joint-config":
+		b.JointCfg = !b.JointCfg
+	case "placement-rules":
+		b.Rules = !b.Rules
+	case "location-labels":
+		b.LocLabels = !b.LocLabels
+	}
+	return b
+}
+
+func (b queryBase) world(S int) *world {
+	w := (&xcfg{S: S, Mode: b.mode(), Labels: true}).world()
+	w.LocationLabels = b.LocLabels
+	if b.Rules {
+		w.Rules = "default"
+	}
+	return w
+}
+
+// runQueryFlip builds one case with the change applied at the at-th query (at = 0: dry run, returns the
+// number of queries).
+func runQueryFlip(rn *runner, qc *queryCluster, base queryBase, kind string, at int, k *kase, origin *sim.Region, info *core.RegionInfo) int {
+	qc.fire = nil
+	qc.apply(base)
+	qc.calls, qc.at = 0, at
+	if at == 0 {
+		_, _, _ = invoke(qc, info, &k.Req, nil)
+		return qc.calls
+	}
+	after := base.flipped(kind)
+	qc.fire = func() {
+		qc.fire = nil
+		n := qc.calls
+		qc.apply(after) // (apply itself reads options through the embedded cluster, not through the counter)
+		qc.calls = n
+	}
+	rn.exec(qc, k, origin, info)
+	return qc.calls
+}
+
+func queryFlipPhase(r *ev.Run, workers int, merge func(*stats)) {
+	const S = 3
+	kinds := []string{"feature", "joint-config", "placement-rules"}
+	if r.Thorough() {
+		kinds = append(kinds, "location-labels")
+	}
+	var bases []queryBase
+	for _, f := range []bool{false, true} {
+		for _, j := range []bool{false, true} {
+			bases = append(bases, queryBase{Feature: f, JointCfg: j})
+		}
+	}
+	type item struct{ layout, leader int }
+	var items []item
+	for code := 0; code < pow(3, S); code++ {
+		for i, x := range digitsOf(code, 3, S) {
+			if x == 1 {
+				items = append(items, item{code, i})
+			}
+		}
+	}
+	targets := spellTargets(S)
+	ch := make(chan item, 32)
+	var wg sync.WaitGroup
+	var fatal sync.Once
+	for wk := 0; wk < workers; wk++ {
+		wg.Add(1)
+		go func() {
+			defer wg.Done()
+			rn := &runner{st: newStats()}
+			cl, err := newCluster(queryBase{Feature: true, JointCfg: true}.world(S))
+			if err != nil {
+				fatal.Do(func() { r.Inconclusive("query flip phase: %v", err) })
+				for range ch {
+				}
+				return
+			}
+			qc := &queryCluster{cluster: cl}
+			for it := range ch {
+				var specs []sim.PeerSpec
+				for i, x := range digitsOf(it.layout, 3, S) {
+					if x != 0 {
+						specs = append(specs, sim.PeerSpec{Store: uint64(i + 1), Role: plainRoles[x], Leader: i == it.leader})
+					}
+				}
+				layout := layoutString(specs)
+				origin := originRegion(specs)
+				info := origin.Info()
+				var reqs []request
+				for _, t := range targets {
+					reqs = append(reqs, request{API: apiBuilder, Target: t})
+					for _, p := range t {
+						if p.Role == "v" {
+							reqs = append(reqs, request{API: apiBuilder, Target: t, Leader: p.Store})
+						}
+					}
+				}
+				for _, base := range bases {
+					for _, kind := range kinds {
+						bs := []queryBase{base}
+						if kind == "placement-rules" {
+							on := base
+							on.Rules = true
+							bs = append(bs, on) // rules: off -> on and on -> off
+						}
+						for _, b := range bs {
+							w := b.world(S)
+							hist := []string{fmt.Sprintf("%s changes to %+v just before the k-th cluster query of the build (k = query_flip_at)", kind, b.flipped(kind))}
+							for qi := range reqs {
+								k0 := &kase{World: w, Origin: layout, Req: reqs[qi]}
+								n := runQueryFlip(rn, qc, b, kind, 0, k0, origin, info)
+								rn.st.count("query_flip_cases", 1)
+								for at := 1; at <= n; at++ {
+									kk := &kase{World: w, Origin: layout, Req: reqs[qi], Family: famWorldChange, History: hist, AmbiguousWorld: true,
+										QueryFlip: kind, QueryFlipAt: at, QueryBase: &b}
+									runQueryFlip(rn, qc, b, kind, at, kk, origin, info)
+									rn.st.count("query_flip_builds", 1)
+									rn.st.count("query_flip_builds_"+kind, 1)
+								}
+							}
+						}
+					}
+				}
+			}
+			cl.close()
+			merge(rn.st)
+		}()
+	}
+	for i, it := range items {
+		if i%r.Shards == r.Shard {
+			ch <- it
+		}
+	}
+	close(ch)
+	wg.Wait()
 }
